@@ -1355,7 +1355,6 @@ func (se *specEnv) debugValue(name string) (ssa.Value, bool) {
 	return pick, pick != nil
 }
 
-
 // frameAsStore recognises  (=> (not (= q e)) (= (select A q) (select B q)))  with q not in e, A, B and
 // returns the equivalent  (= A (store B e (select A e))).
 func frameAsStore(body, q string) (string, bool) {
